@@ -186,7 +186,7 @@ func (e *Engine) VerifyFunction(fn *ssa.Function, opts VerifyOpts) (u *Unit) {
 		name += " /unconstrained"
 	}
 	u = &Unit{Name: name, W: NewWorld(), eng: e, nameCnt: map[string]int{}, usedAssumed: map[string]bool{}, usedPureUF: map[string]bool{},
-		havocCalls: map[string]bool{}, inlined: map[string]bool{}, lockKeys: map[string]bool{}}
+		havocCalls: map[string]bool{}, inlined: map[string]bool{}, lockKeys: map[string]bool{}, boxed: map[string]boxedVal{}}
 	u.Fn = fn
 	defer func() {
 		if r := recover(); r != nil {
@@ -451,7 +451,7 @@ func (e *Engine) assumeAxioms(u *Unit, x *Exec, pkgPath string) {
 // VerifyLemmas proves the lemmas of a package from its axioms alone.
 func (e *Engine) VerifyLemmas(pkgPath string, names []string) *Unit {
 	u := &Unit{Name: "lemmas " + pkgPath, W: NewWorld(), eng: e, nameCnt: map[string]int{}, usedAssumed: map[string]bool{}, usedPureUF: map[string]bool{},
-		havocCalls: map[string]bool{}, inlined: map[string]bool{}, lockKeys: map[string]bool{}}
+		havocCalls: map[string]bool{}, inlined: map[string]bool{}, lockKeys: map[string]bool{}, boxed: map[string]boxedVal{}}
 	st := &State{cells: map[interface{}]Value{}, heaps: map[string]Term{}, gen: &Gen{kind: "init"}, u: u}
 	st.alloc = u.W.Const("alloc@0", SInt)
 	x := &Exec{u: u, regs: map[ssa.Value]Value{}, cellable: map[*ssa.Alloc]bool{}, freshBases: map[string]bool{}, prefix: u.Name, entry: st, alloc0: st.alloc}
